@@ -4,6 +4,7 @@ import os, sys, json, time, random, re, collections, itertools
 import vlib, streams
 import pstreams3 as P3
 import pstreams4 as P4
+import pstreams5 as P5
 from vlib import log, enc, dec, ORACLE
 
 TRUSTED_BASE_COMMON = [
@@ -156,7 +157,7 @@ def lex_property_check(src, res):
 
 
 def stream_lex(ctx):
-    cases = streams.lex_cases(ctx.rng, ctx.tier) + [(s_, 'corpus2') for s_ in P3.LEX_CORPUS + P4.LEX_CORPUS2]
+    cases = streams.lex_cases(ctx.rng, ctx.tier) + [(s_, 'corpus2') for s_ in P3.LEX_CORPUS + P4.LEX_CORPUS2 + P5.LEX_CORPUS3]
     fname = 't.pakhi'
     mk = lambda s: 'lex %s %s' % (enc(fname), enc(s))
     lines = [mk(s) for s, _ in cases]
@@ -984,9 +985,10 @@ def stream_compose(ctx):
     for r in raw:
         bud = r.get('budget', 8000)
         sc = r.get('sched', 'n')
-        cases.append({'src': r['p1'], 'kind': 'p1', 'g': id(r), 'budget': bud, 'sched': sc})
-        cases.append({'src': r['p2'], 'kind': 'p2', 'g': id(r), 'budget': bud, 'sched': sc})
-        cases.append({'src': r['p1'] + r['p2'], 'kind': 'p1p2', 'g': id(r), 'shift': r['p1'].count('\n'), 'budget': bud, 'sched': sc})
+        fl = r.get('files', [])
+        cases.append({'src': r['p1'], 'kind': 'p1', 'g': id(r), 'budget': bud, 'sched': sc, 'files': fl})
+        cases.append({'src': r['p2'], 'kind': 'p2', 'g': id(r), 'budget': bud, 'sched': sc, 'files': fl})
+        cases.append({'src': r['p1'] + r['p2'], 'kind': 'p1p2', 'g': id(r), 'shift': r['p1'].count('\n'), 'budget': bud, 'sched': sc, 'files': fl})
     impl, model = diff_programs(ctx, 'compose', cases, flags='-', shrink=False)
     for i in range(0, len(cases), 3):
         o1, e1 = ends_of(impl[i]); o2, e2 = ends_of(impl[i + 1]); o12, e12 = ends_of(impl[i + 2])
@@ -996,7 +998,11 @@ def stream_compose(ctx):
         if e2[:1] == ('err',) and e2[1] != 'Unexpected':
             want_end = (e2[0], e2[1], str(int(e2[2]) + cases[i + 2]['shift']) if e2[2] != '0' else '0', e2[3])
         if (' '.join(x for x in o12.split(' ') if x), e12) != (want_out, want_end) and len(ctx.failing) < 4:
-            ctx.failing.append({'stream': 'compose', 'why': 'P1;P2 does not behave as P1 followed by P2 alone', 'source': cases[i + 2]['src'], 'case_line': case_line(cases[i + 2], None, '-'),
+            # known finding D29: an import name of P2 extends an import name of P1 by '/...' (computed from the two texts)
+            imp = re.compile(r'মডিউল\s+(\S+)\s*=')
+            n1, n2 = imp.findall(cases[i]['src']), imp.findall(cases[i + 1]['src'])
+            cls = 'D29-import-name-extends-another' if any(b.startswith(a + '/') for a in n1 for b in n2) and e12[:2] == ('err', 'Runtime') else None
+            ctx.failing.append({'stream': 'compose', 'class': cls, 'why': 'P1;P2 does not behave as P1 followed by P2 alone', 'source': cases[i + 2]['src'], 'case_line': case_line(cases[i + 2], None, '-'),
                                 'implementation': str((o12, e12))[:1500], 'expected': str((want_out, want_end))[:1500], 'p2_alone': str((o2, e2))[:800]})
 
 
